@@ -26,6 +26,7 @@ ASSUMPTIONS = [
 ]
 EXHAUSTIVE = {'quick': False, 'thorough': False}
 PYOPT_KINDS = (None,)
+CLOCALE_KINDS = (None,)
 
 
 def plan(tier, seed):
